@@ -109,9 +109,10 @@ Definition run_C06s (v : val) : val :=
 Definition seeded_ok (m i : val) : bool :=
   shape2 m && nat_ll_eqb (v_batches (v_nth 0 m)) (v_batches (v_nth 0 i)).
 
-(** correspondence: [m] is the SEEDED run.  Second and third line (unchanged, [agree_C06] with the
-    oracle model's own default run): the relational replay, and the lock-step replay of the draws
-    the harness made with the real rand crates (cross-check) resp. equality for the two
-    deterministic modes *)
+(** correspondence: [m] is the SEEDED run.  Second and third line: [agree_C06] as before, handed the
+    seeded run — the relational replay; for the shuffling modes the lock-step replay of the draws
+    the harness made with the real rand crates (cross-check; [m] is not read there); for the two
+    deterministic modes exact equality of the whole output with [m], which without shuffle is the
+    oracle model's own run ([run_seeded_noshuffle]) *)
 Definition agree_C06s (v m i : val) : bool :=
-  seeded_ok m i && agree_C06 v (run_C06 v) i.
+  seeded_ok m i && agree_C06 v m i.
